@@ -25,6 +25,11 @@ import (
 
 const V128 = wasm.ValueTypeV128
 
+const (
+	nExtraInt   = 12
+	nExtraFloat = 14
+)
+
 var (
 	orc *hx.Oracle
 	rep *hx.Report
@@ -521,6 +526,35 @@ func buildModule(o *opInfo, imm []byte, constTuples [][]v128) []byte {
 	// they are reloaded from spill slots right at the instruction while the other predecessor of the
 	// merge block has already fixed their registers.  This is where multi-instruction lowerings that
 	// modify a temporary in place are vulnerable to the register allocator (findings F34, F35).
+	// "pressure" placement: 12 extra i64 and 14 extra f64 parameters stay live across the instruction
+	// (they are stored afterwards), so that the instruction's own temporaries compete for registers
+	{
+		ps := append([]byte{}, o.params...)
+		for k := 0; k < nExtraInt; k++ {
+			ps = append(ps, wb.I64)
+		}
+		for k := 0; k < nExtraFloat; k++ {
+			ps = append(ps, wb.F64)
+		}
+		np := uint32(len(o.params))
+		var b []byte
+		for i := range o.params {
+			b = append(b, wb.LocalGet(uint32(i))...)
+		}
+		b = append(b, opBody(o, imm)...)
+		b = append(b, wb.LocalSet(np+nExtraInt+nExtraFloat)...)
+		for k := uint32(0); k < nExtraInt+nExtraFloat; k++ {
+			b = append(b, wb.I32Const(int32(512+8*k))...)
+			b = append(b, wb.LocalGet(np+k)...)
+			if k < nExtraInt {
+				b = append(b, wb.MemArg(wasm.OpcodeI64Store, 3, 0)...)
+			} else {
+				b = append(b, wb.MemArg(wasm.OpcodeF64Store, 3, 0)...)
+			}
+		}
+		b = append(b, wb.LocalGet(np+nExtraInt+nExtraFloat)...)
+		m.AddFunc(wb.Func{Params: ps, Results: []byte{o.result}, Locals: []byte{o.result}, Body: b, Export: "pr"})
+	}
 	nop := m.AddFunc(wb.Func{})
 	{
 		np := uint32(len(o.params))
@@ -862,6 +896,13 @@ func runOp(r *rand.Rand, o *opInfo, engines []engine, budget int) {
 			check("memory", tup, "m", nil, true)
 			if k%3 == 0 {
 				check("spill+merge", tup, "sp", append(flat(o.params, tup), 0), false)
+			}
+			if k%5 == 0 {
+				args := flat(o.params, tup)
+				for x := 0; x < nExtraInt+nExtraFloat; x++ {
+					args = append(args, uint64(0x1111111111111111)*uint64(x+1))
+				}
+				check("pressure", tup, "pr", args, false)
 			}
 		}
 		for k, ct := range cts {
